@@ -17,6 +17,14 @@ CLAIMED = {
              "rules, division by zero giving 0. The text->token step and the model-vs-code tie are a per-run differential "
              "check (model executed by vm_compute against the Rust crate on generated renderings, bit-exact).",
         design="DESIGN.md section 7 C02", technique="Coq proof by induction on expression trees + model/implementation correspondence"),
+    "C10": dict(
+        text="Theorems for all integer counts and all second counts: 'N unit' is N times the unit length with 12 months = "
+             "365 days (exact characterisation incl. the out-of-range case), the printed parts are the greedy decomposition "
+             "(sum to the magnitude, each count below its unit's bound, order year..second), `as` floors, + - and "
+             "juxtaposition (2..9 parts) add/subtract; singular/plural rows are finite-table theorems over the format tables "
+             "regenerated from config.json; unit constants are scraped from the Rust source on every run. Text->token step and "
+             "model-vs-code tie: per-run differential check incl. printed output parsed back.",
+        design="DESIGN.md section 7 C10", technique="Coq proof (lia with div/mod, induction on part lists, finite tables by vm_compute) + model/implementation correspondence"),
 }
 
 PENDING_REASON = "check not built yet (work in progress; see DESIGN.md section 7)"
